@@ -20,17 +20,25 @@ import (
 
 var c19Sizes = []int{2, 3, 4, 5, 6, 8, 10, 16, 24, 32, 64}
 
-// Word kinds the simulated source can return.
+// Word kinds the simulated source can return. The adversarial kinds fix only
+// `ends` bits at each end of the word (ends = the buffer size, clamped to 2..16)
+// and leave the middle fair: enough to force one all-keep or all-evict pass over
+// a full buffer, or one coin flip, whichever end of the word an implementation
+// consumes first - and no more. A word with all 64 bits forced would hand an
+// implementation that carries its coin bits over from pass to pass (a perfectly
+// fair thing to do) thirty-two consecutive all-keep passes on a two-element
+// buffer, and two such words would push the scale past the 64 bits of Count;
+// real entropy does that with probability 2^-128.
 const (
-	wFair = iota
-	wOnes
-	wZeros
-	wSparse // few bits set
-	wDense  // few bits clear
+	wFair     = iota
+	wOnes     // both ends all ones: a pass keeps everything, a coin evicts
+	wZeros    // both ends all zeros: a pass evicts everything, a coin keeps
+	wLowOnes  // low end ones, high end zeros
+	wHighOnes // high end ones, low end zeros
 	numWordKinds
 )
 
-var wordKindNames = [...]string{"fair", "all-ones", "all-zeros", "sparse", "dense"}
+var wordKindNames = [...]string{"fair", "ends-ones", "ends-zeros", "low-ones-high-zeros", "high-ones-low-zeros"}
 
 // simSource is the rand.Source handed to the counter.
 type simSource struct {
@@ -38,26 +46,25 @@ type simSource struct {
 	scripted bool // every word's kind is an explicit choice
 	weights  []int
 	fair     *rand.PCG
+	ends     uint // forced bits at each end of an adversarial word
 	last     int
 	streak   int
-	budget   int // non-fair words left (fault budget)
+	budget   int // adversarial words left (fault budget)
 	st       *Stats
 	calls    int
 	log      []string
 }
 
-// maxStreak caps runs of identical extreme words: real entropy produces k in a
-// row with probability 2^-64k, and an unbounded streak of "keep everything"
-// words would make any correct halving loop spin.
+// maxStreak caps runs of identical adversarial words.
 const maxStreak = 8
 
 // maxScale ends a run: Count is Len times 2^k with k the number of halving
-// passes; k can only approach the width of Count (64) if the source keeps
-// returning words that real entropy produces with probability 2^-64 each.
-// The fault budget below keeps runs away from that; this is the backstop.
+// passes. An adversarial word forces at most one pass or one coin, the budget
+// is at most 16 words, and fair words add about log2(stream/size) passes, so k
+// stays far below 40; this is the backstop.
 const maxScale = 1 << 40
 
-var c19Budgets = []int{4, 8, 16, 32}
+var c19Budgets = []int{2, 4, 8, 16}
 
 func (s *simSource) Uint64() uint64 {
 	s.calls++
@@ -82,9 +89,9 @@ func (s *simSource) Uint64() uint64 {
 	if kind != wFair && s.budget <= 0 {
 		kind = wFair
 	}
-	if (kind == wOnes || kind == wZeros) && kind == s.last && s.streak >= maxStreak {
+	if kind != wFair && kind == s.last && s.streak >= maxStreak {
 		kind = wFair
-		s.st.Inc("fault:extreme_word_streak_capped", 1)
+		s.st.Inc("fault:adversarial_word_streak_capped", 1)
 	}
 	if kind != wFair {
 		s.budget--
@@ -94,18 +101,18 @@ func (s *simSource) Uint64() uint64 {
 	} else {
 		s.last, s.streak = kind, 1
 	}
-	var w uint64
+	w := s.fair.Uint64()
+	lo := uint64(1)<<s.ends - 1
+	hi := lo << (64 - s.ends)
 	switch kind {
-	case wFair:
-		w = s.fair.Uint64()
 	case wOnes:
-		w = math.MaxUint64
+		w |= lo | hi
 	case wZeros:
-		w = 0
-	case wSparse:
-		w = 1<<(s.fair.Uint64()%64) | 1<<(s.fair.Uint64()%64)
-	case wDense:
-		w = ^(1<<(s.fair.Uint64()%64) | 1<<(s.fair.Uint64()%64))
+		w &^= lo | hi
+	case wLowOnes:
+		w = (w | lo) &^ hi
+	case wHighOnes:
+		w = (w | hi) &^ lo
 	}
 	s.st.Inc("fault:word_"+wordKindNames[kind], 1)
 	if len(s.log) < 64 {
@@ -157,6 +164,17 @@ type c19Config struct {
 }
 
 var orderNames = [...]string{"ascending", "descending", "sub-generator permutation", "chosen permutation"}
+
+// endsFor is the number of forced bits at each end of an adversarial word.
+func endsFor(size int) uint {
+	switch {
+	case size < 2:
+		return 2
+	case size > 16:
+		return 16
+	}
+	return uint(size)
+}
 
 // buildStream returns a stream with d distinct values, each repeated 1..maxRep
 // times, interleaved by the sub-generator.
@@ -218,7 +236,7 @@ func runC19A(ch chooser.Chooser, st *Stats) *Outcome {
 	cfg.Order = orderNames[policy]
 	subSeed := uint64(ch.Draw(1<<16, "subseed"))
 	sub := rand.NewPCG(subSeed, 0x5eed)
-	src := &simSource{ch: ch, scripted: cfg.Scripted, weights: cfg.Weights, fair: rand.NewPCG(subSeed, 0xfa17), last: -1, st: st, budget: cfg.Budget}
+	src := &simSource{ch: ch, scripted: cfg.Scripted, weights: cfg.Weights, fair: rand.NewPCG(subSeed, 0xfa17), last: -1, st: st, budget: cfg.Budget, ends: endsFor(cfg.Size)}
 	stream := buildStream(cfg.Distinct, cfg.MaxRep, sub)
 	resetAt := map[int]bool{}
 	for i := 0; i < cfg.Resets; i++ {
@@ -467,12 +485,12 @@ func init() {
 	register(&Property{
 		ID:  "C19/A",
 		Run: runC19A,
-		Rule: "one run = one counter (size 2-64) fed a stream of 1..20x size distinct values, each repeated 1-4 times and interleaved, with 0-2 Resets, while the simulator supplies every 64-bit word of the counter's random source (fair, all-ones, all-zeros, sparse, dense; streaks capped at 8) and the iteration order of the buffer map in each halving pass; invariants checked after every Add; " +
+		Rule: "one run = one counter (size 2-64) fed a stream of 1..20x size distinct values, each repeated 1-4 times and interleaved, with 0-2 Resets, while the simulator supplies every 64-bit word of the counter's random source (fair, or with the 2-16 bits at each end forced to ones or zeros and the middle fair, within a budget of 2-16 such words) and the iteration order of the buffer map in each halving pass; invariants checked after every Add; " +
 			"a run is non-trivial if the stream has at least size distinct values (the sampled regime is entered); distinct = distinct fingerprints of (value, Len, Count) sequences",
 		Real:      []string{"distinct.Counter", "mapset.Set"},
 		Simulated: []string{"the counter's rand.Source (crypto/rand-seeded ChaCha8 in production)", "iteration order of the buffer map during a halving pass"},
 		RequiredProbes: []string{"probe:exact_regime_checked", "probe:halving_pass", "probe:several_halvings_in_one_add", "probe:present_element_removed_by_failed_coin",
-			"probe:reset_in_sampled_regime", "probe:buffer_emptied", "fault:word_all-ones", "fault:word_all-zeros", "fault:extreme_word_streak_capped"},
+			"probe:reset_in_sampled_regime", "probe:buffer_emptied", "fault:word_ends-ones", "fault:word_ends-zeros", "fault:word_low-ones-high-zeros", "fault:word_high-ones-low-zeros"},
 	})
 	register(&Property{
 		ID:  "C19/B",
